@@ -140,7 +140,26 @@ def run_case(case, rec):
     main_pairs = [(t, g) for t in terms for g in ("nn", "theta", "phi")]
     rec.count("nonzero_pairs_min", int(all(nz[p] for p in main_pairs)))
     if not all(nz[p] for p in main_pairs):
-        rec.inconcl("some (term, group) pair has a zero gradient: %s" % [p for p in main_pairs if not nz[p]])
+        # by construction every such pair has a non-zero derivative (the network reads theta and phi).  A zero gradient
+        # of a SELECTED pair is decided with central finite differences of the term's value (values do not depend on
+        # the derivative specification): a selected pair must contribute its gradient
+        l_all = eqx.tree_at(lambda l: l.derivative_keys, loss, mask_tree(all_true, True))
+        decided = False
+        for (t, g) in [p for p in main_pairs if not nz[p] and p[1] != "nn"]:
+            k = terms.index(t)
+            h = 1e-5
+            vals_pm = []
+            for sgn in (+1, -1):
+                pp = eqx.tree_at(lambda q: q.eq_params[g], params, params.eq_params[g] + sgn * h)
+                vals_pm.append(float(np.asarray(guard.call(obs_jit, l_all, pp, batch)[0])[1 + k]))
+            fd = (vals_pm[0] - vals_pm[1]) / (2 * h)
+            if abs(fd) > 1e-4:
+                decided = True
+                rec.violation("selected-pair-contributes-nothing/%s/%s" % (kind, t),
+                              "term %s selects %s but its gradient with respect to %s is exactly 0, while the term's value "
+                              "changes at rate %r with %s (central differences)" % (t, g, g, fd, g), fd=fd)
+        if not decided:
+            rec.inconcl("some (term, group) pair has a zero gradient: %s" % [p for p in main_pairs if not nz[p]])
         return
 
     def check(bits, vals, jac, sig, label):
